@@ -104,7 +104,7 @@ func (e *engine) Generate(seed uint64, idx int, tier string, avoid []harness.Fin
 		c.Cap = []int{0, 0, 1, 2, 4, 16}[r.Intn(6)]
 		nc := 1 + r.Intn(3)
 		for i := 0; i < nc; i++ {
-			c.Cons = append(c.Cons, []string{"range", "pop", "select", "select-tick"}[r.Intn(4)])
+			c.Cons = append(c.Cons, []string{"range", "pop", "select", "select-tick", "select-many"}[r.Intn(5)])
 		}
 		c.TimeoutMs = []int{1, 10, 100}[r.Intn(3)]
 		if r.Pct(40) {
@@ -161,7 +161,15 @@ func (c *Case) program(sfx string) program {
 	var b strings.Builder
 	switch c.Scen {
 	case "s1":
-		fmt.Fprintf(&b, "(let ((c (make-channel %d)) (pd (make-channel 64)))\n", c.Cap)
+		fmt.Fprintf(&b, "(let ((c (make-channel %d)) (pd (make-channel 64))", c.Cap)
+		quits := ""
+		for k, kind := range c.Cons {
+			if kind == "select-many" {
+				fmt.Fprintf(&b, " (q%d (make-channel 1))", k)
+				quits += fmt.Sprintf(" (channel-push q%d 1)", k)
+			}
+		}
+		b.WriteString(")\n")
 		for p := 0; p < c.P; p++ {
 			sl := ""
 			if c.SleepMs > 0 {
@@ -169,13 +177,19 @@ func (c *Case) program(sfx string) program {
 			}
 			fmt.Fprintf(&b, " (run (progn (dotimes (i %d) (channel-push c (+ %d i))%s) (channel-push pd 1)))\n", c.N, (p+1)*1000, sl)
 		}
-		fmt.Fprintf(&b, " (run (progn (dotimes (i %d) (channel-pop pd)) (channel-close c) (sim-emit \"closed\")))\n", c.P)
+		fmt.Fprintf(&b, " (run (progn (dotimes (i %d) (channel-pop pd)) %s (channel-close c) (sim-emit \"closed\")))\n", c.P, quits)
 		for k, kind := range c.Cons {
 			switch kind {
 			case "range":
 				fmt.Fprintf(&b, " (run (progn (range (lambda (x) (sim-emit \"got\" %d x)) c) (sim-emit \"cdone\" %d)))\n", k, k)
 			case "pop":
 				fmt.Fprintf(&b, " (run (progn (block done (dotimes (i 1000000) (let ((x (channel-pop c))) (if x (sim-emit \"got\" %d x) (return-from done nil))))) (sim-emit \"cdone\" %d)))\n", k, k)
+			case "select-many":
+				// more than eight channels: select takes its reflect path, which
+				// does not run the clause of a closed channel, so this consumer
+				// is told to stop through its own channel right before the close
+				// and then drains what is left
+				fmt.Fprintf(&b, " (run (let ((d1 (make-channel 1)) (d2 (make-channel 1)) (d3 (make-channel 1)) (d4 (make-channel 1)) (d5 (make-channel 1)) (d6 (make-channel 1)) (d7 (make-channel 1)) (d8 (make-channel 1))) (block done (dotimes (i 1000000) (select (q%[1]d x (block drain (dotimes (j 1000000) (let ((y (channel-pop c))) (if y (sim-emit \"got\" %[1]d y) (return-from drain nil))))) (return-from done nil)) (d1 x 1) (d2 x 1) (d3 x 1) (d4 x 1) (c x (when x (sim-emit \"got\" %[1]d x))) (d5 x 1) (d6 x 1) (d7 x 1) (d8 x 1)))) (sim-emit \"cdone\" %[1]d)))\n", k)
 			case "select":
 				fmt.Fprintf(&b, " (run (progn (block done (dotimes (i 1000000) (select (c x (if x (sim-emit \"got\" %d x) (return-from done nil)))))) (sim-emit \"cdone\" %d)))\n", k, k)
 			default:
